@@ -101,6 +101,18 @@ def handler_rules(repo, rep):
             raise AnalysisError('anchor vanished: api/app.py %s' % hname)
         rep.analysed(f)
         w = where(f, f.node)
+        # a mapping keyed by RESULTS: dict(zip(<results>, <names>)) / {value: name ...}.  Results that coincide (coincident points give
+        # distance 0, azimuths 0, 0) are one key: entries vanish from the response
+        for n_ in ast.walk(f.node):
+            if isinstance(n_, ast.Call) and getattr(n_.func, 'id', '') == 'dict' and n_.args and isinstance(n_.args[0], ast.Call) and getattr(n_.args[0].func, 'id', '') == 'zip' \
+                    and len(n_.args[0].args) == 2:
+                ka, kb = n_.args[0].args
+                names_first = isinstance(ka, (ast.Tuple, ast.List)) and all(isinstance(e_, ast.Constant) and isinstance(e_.value, str) for e_ in ka.elts)
+                names_second = isinstance(kb, (ast.Tuple, ast.List)) and all(isinstance(e_, ast.Constant) and isinstance(e_.value, str) for e_ in kb.elts)
+                if names_second and not names_first:
+                    rep.violated('R-WIRE', 'R-WIRE::api/app.py::%s::keyed-by-results' % hname, where(f, n_), '`%s` builds a mapping whose KEYS are the computed results and whose values are the '
+                                 'names: results that are equal collapse into one entry - two coincident points give (0, 0, 0) and the response is {"azimuth2to1": 0} without ell_dist and azimuth1to2' % stmt_text(n_)[:70],
+                                 expected="dict(zip(names, results))", actual=stmt_text(n_)[:90])
         ev = mk_eval(repo)
         val = ev.call_function(f, {})
         base = 'R-WIRE::api/app.py::%s::' % hname
